@@ -541,6 +541,28 @@ def paired(factory, key=str):
         yield x
 
 
+def shrink_seq(items, fails_with, budget=300):
+    """delta debugging over a sequence: drop one element at a time (from the end) while `fails_with(list)`
+    still holds; returns the reduced list"""
+    items = list(items)
+    changed = True
+    while changed and budget > 0:
+        changed = False
+        i = len(items) - 1
+        while i >= 0 and budget > 0:
+            cand = items[:i] + items[i + 1:]
+            budget -= 1
+            try:
+                ok = fails_with(cand)
+            except Exception:
+                ok = False
+            if ok:
+                items = cand
+                changed = True
+            i -= 1
+    return items
+
+
 def disturb(*objs):
     """What a caller may do with *its own* IP objects after handing them to a constructor or function:
     move them (the cursor idiom `r = IPRange(cur, cur + n - 1); cur += n`).  netaddr copies its arguments;
